@@ -48,6 +48,16 @@ std::string handle(const std::string& op, Args& a)
 		a.end();
 		return run_forked([&](Out& o) { put(o, A.Inverse()); });
 	}
+	if(op == "c05.gate")	// the library's own Determinant() and Invertible(), then what Inverse() does on the same matrix
+	{
+		Matrix A = rd_mat(a);
+		a.end();
+		std::string r1 = run_forked([&](Out& o) { o << A.Determinant() << (int) A.Invertible(); });
+		if(r1.compare(0, 3, "ok ") != 0)
+			return r1;
+		std::string r2 = run_forked([&](Out& o) { put(o, A.Inverse()); });
+		return r1 + " | " + r2;
+	}
 	if(op == "c05.detlaws")	  // det A, det B, det(A*B), det(A^T), det(A with rows 0 and 1 exchanged)
 	{
 		Matrix A = rd_mat(a), B = rd_mat(a);
